@@ -20,11 +20,19 @@ const KEY: &str = "k";
 /// hash kinds) or by direct CRDT operations stamped with the replica's ticking clock
 /// (counter and set kinds); deltas are delivered between replicas in random order.
 /// Every value in the returned pool is a value a replica held at some point.
+thread_local! { static SPREAD: std::cell::Cell<Option<[u64; 3]>> = std::cell::Cell::new(None); }
+/// clock values far apart on the u64 range (stamps are plain u64 fields accepted from peers)
+const FAR: [u64; 12] = [0, 1, 1 << 31, (1 << 32) + 1, 1 << 62, (1 << 63) - 1, 1 << 63, (1 << 63) + 1,
+    1 + 3 * (1u64 << 61), 1 + 3 * (1u64 << 62), u64::MAX - 100_000, u64::MAX - 50_000];
+
 pub fn gen_pool(rng: &mut Rng, same: bool) -> Vec<ReplicatedValue> {
     let level = if rng.gen_bool(0.3) { ConsistencyLevel::Causal } else { ConsistencyLevel::Eventual };
     let mut st: Vec<ShardReplicaState> = (1..=3u64).map(|r| ShardReplicaState::new(ReplicaId(r), level)).collect();
     for s in st.iter_mut() {
         s.lamport_clock.time = rng.gen_range(0..3);
+    }
+    if let Some(t) = SPREAD.with(|x| x.get()) {
+        for (s, t) in st.iter_mut().zip(t.iter()) { s.lamport_clock.time = *t; }
     }
     let kinds = [0u32, 0, 5, 5, 1, 2, 3, 4];
     let k0 = kinds[rng.gen_range(0..kinds.len())];
@@ -140,10 +148,16 @@ fn main() {
     let a: Vec<String> = std::env::args().collect();
     let args = &Args::parse(&a[1..]);
     let mut out = Out::new(&args.out, "C07", args.shards, HEADER);
-    out.nontrivial_rule = "triples (a,b,c) drawn from the values three replicas of one key hold while performing local operations (real ShardReplicaState API for LWW/hash, direct CRDT ops for counters/sets) and delivering deltas to each other in random order (time ties across replicas included); non-trivial = a,b,c pairwise different in obs; distinct by canonical text of the triple".into();
+    out.nontrivial_rule = "triples (a,b,c) drawn from the values three replicas of one key hold while performing local operations (real ShardReplicaState API for LWW/hash, direct CRDT ops for counters/sets) and delivering deltas to each other in random order (time ties across replicas included; in a fifth of the cases the three clocks start far apart on the u64 range: 0, 2^31, 2^62, 2^63-1, 2^63, 2^63+1, 1+3*2^61, 1+3*2^62, near 2^64); non-trivial = a,b,c pairwise different in obs; distinct by canonical text of the triple".into();
     let range: Vec<u64> = match args.only { Some(i) => vec![i], None => (0..args.n).collect() };
     for i in range {
         let mut rng = case_rng(args.seed, i);
+        // a fifth of the cases start the three replicas' clocks far apart (own stream: the other
+        // cases keep their shape)
+        let mut rng2 = case_rng(args.seed ^ 0x0c07_fa4, i);
+        let spread = if rng2.gen_bool(0.2) { Some([FAR[rng2.gen_range(0..FAR.len())], FAR[rng2.gen_range(0..FAR.len())], FAR[rng2.gen_range(0..FAR.len())]]) } else { None };
+        SPREAD.with(|x| x.set(spread));
+        if spread.is_some() { out.count("clocks:far-apart"); }
         let (a, b, c) = gen_triple(&mut rng);
         let ab = a.merge(&b);
         let ba = b.merge(&a);
